@@ -85,6 +85,21 @@ def run_solver(solver, path, timeout):
     return first, out, dt
 
 
+def _inproc_check(args):
+    """first attempt inside a pool worker (no process start-up): z3 5.1.0 library on the same SMT-LIB text"""
+    txt, timeout_ms = args
+    import z3 as _z3, time as _t
+    t0 = _t.time()
+    try:
+        ctx = _z3.Context()
+        sv = _z3.Solver(ctx=ctx)
+        sv.set('timeout', timeout_ms)
+        sv.from_string(txt.replace('(get-model)', ''))
+        r = str(sv.check())
+    except Exception as e:
+        r = 'error'
+    return r, _t.time() - t0
+
 class Portfolio:
     def __init__(self, tier='quick', jobs=None, workdir=None, order=None):
         self.tier = tier
@@ -159,6 +174,19 @@ class Portfolio:
     def discharge(self, obls):
         for ob in obls:
             self.export(ob)
+        pending = [ob for ob in obls if ob.status is None and ob.smt2 is not None]
+        if len(pending) >= 8 and os.environ.get('GVC_NO_INPROC') is None:
+            import multiprocessing
+            try:
+                with multiprocessing.get_context('fork').Pool(self.jobs) as pool:
+                    res = pool.map(_inproc_check, [(ob.smt2, 1500) for ob in pending], chunksize=4)
+                for ob, (r, dt) in zip(pending, res):
+                    self.solver_seconds += dt
+                    want = 'unsat' if ob.kind == 'proof' else 'sat'
+                    if r == want:          # only the expected answer is taken from the fast path; everything else goes to the portfolio
+                        ob.status, ob.answer, ob.solver, ob.seconds = 'discharged', r, 'z3-new(lib)', dt
+            except Exception:
+                pass
         with ThreadPoolExecutor(max_workers=self.jobs) as ex:
             list(ex.map(self.discharge_one, obls))
         return obls
